@@ -115,8 +115,14 @@ def asset_steps(g, a):
 def window_oracle(ctx, sp, o, mode, disp):
     """dispatch of every asset is zero outside its window clipped to the horizon"""
     for a in sp['assets']:
-        if a['kind'] in ('OrderBook', 'StructuredAsset', 'ScaledAsset'):
+        if a['kind'] in ('OrderBook', 'ScaledAsset'):
             continue
+        if a['kind'] == 'StructuredAsset':
+            # joint life time: a side of the structure's window binds where every wrapped asset names that side, too
+            a = dict(a, start=a.get('start') if all(b.get('start') for b in a['assets']) else None,
+                     end=a.get('end') if all(b.get('end') for b in a['assets']) else None)
+            if not (a['start'] or a['end']):
+                continue
         ctx.cov['impl_oracle_evaluations'] += 1
         inside = set(asset_steps(sp['grid'], a))
         for n in a['nodes']:
@@ -247,7 +253,9 @@ def run(ctx):
                 a['window_tz'] = rng.choice(['UTC', 'Asia/Tokyo', 'Etc/GMT+5'])
     # assets on a coarser frequency that run since one or two coarse steps before the horizon
     early = gen.gen_many(ctx.seed, n // 3, dict(CFG, p_coarse=1.0, p_coarse_early=0.7, freqs=['h', '30min'], T=(4, 9), n_assets=(1, 2)), 'c08co_')
-    specs = ctx.specs(util.corpus(ctx.prop) + gen.gen_many(ctx.seed, n, CFG, 'c08_') + zoned + early)
+    # structured assets with a life time of their own inside the horizon, wrapping assets that live longer
+    struct = gen.gen_many(ctx.seed, n // 3, dict(CFG, p_coarse=0.0, p_struct_inside=0.8, nodes=(2, 3), kinds={'StructuredAsset': 3, 'SimpleContract': 1, 'Transport': 1}), 'c08st_')
+    specs = ctx.specs(util.corpus(ctx.prop) + gen.gen_many(ctx.seed, n, CFG, 'c08_') + zoned + early + struct)
     base = [sp for sp in specs if 'base_spec' not in sp and not sp['id'].endswith('+out')]
     pairs = []
     for sp in specs:
